@@ -109,8 +109,11 @@ def run_case(case, ctx):
     if max(na, nb) >= 2:
         orders.append("shuffled")
     for ordk in orders:
-        SA = gen.mk_sptensor(ttb, A, gen.stored_order(rng, na, ordk))
-        SB = gen.mk_sptensor(ttb, B, gen.stored_order(rng, nb, ordk if ordk == "sorted" else "shuffled"))
+        # object history: every other case reaches its sparse operands by growth (after operators have been evaluated on the smaller object)
+        hist = [None, "grown-subs", None, "grown-region"][case["cseed"] % 4]
+        SA = gen.mk_sptensor(ttb, A, gen.stored_order(rng, na, ordk), hist=hist)
+        SB = gen.mk_sptensor(ttb, B, gen.stored_order(rng, nb, ordk if ordk == "sorted" else "shuffled"), hist=hist)
+        ctx.feat(hist=str(hist))
         TB = ttb.tensor(B.copy())
         ctx.feat(N=len(shape), nnzA=_nnzc(na), nnzB=_nnzc(nb), order=ordk, common=_nnzc(both),
                  a_only=bool((a_nz & ~b_nz).any()), b_only=bool((~a_nz & b_nz).any()), both_zero=bool((~a_nz & ~b_nz).any()),
